@@ -706,7 +706,28 @@ int main(void)
 			mpt_path_fini(&p);
 			result(out, ret);
 		}
-		else if (!strcmp(op, "reuse") && drv_nw == 5) {
+		else if (!strcmp(op, "bview") && drv_nw == 3) {
+			/* g bview <elems>: a view whose base is a BINARY length mode path (built with addchar/valid/add) */
+			MPT_STRUCT(path) p = MPT_PATH_INIT;
+			char *save = 0, *tok;
+			int ok = 1;
+			size_t i;
+			if (nviews >= MAXV) { puts("bad-op"); continue; }
+			p.flags = MPT_PATHFLAG(SepBinary);
+			for (tok = strtok_r(drv_w[2], ",", &save); tok; tok = strtok_r(0, ",", &save)) {
+				size_t el;
+				char *e = get_text(tok, &el);
+				if (!e || !el || el > 255) { ok = 0; free(e); break; }
+				for (i = 0; i < el; i++) if (mpt_path_addchar(&p, (uint8_t) e[i]) < 0 || mpt_path_valid(&p) < 0) ok = 0;
+				if (mpt_path_add(&p, (int) el) < 0) ok = 0;
+				free(e);
+			}
+			if (!ok || !p.len) { mpt_path_fini(&p); puts("bad-op"); continue; }
+			if (!(views[nviews] = mpt_config_global(&p))) result("refused", "null");
+			else result_n("ok", nviews++);
+			mpt_path_fini(&p);
+		}
+		else if (!strcmp(op, "reuse") && (drv_nw == 5 || (drv_nw == 6 && !strcmp(drv_w[5], "b")))) {
 			/* g reuse <sep-hex> <elems> <text-hex>: a path built element by element (own buffer) is set anew from a plain
 			 * string with mpt_path_set: the old buffer must be released, the walk gives the components of the text */
 			MPT_STRUCT(path) p = MPT_PATH_INIT, q;
@@ -716,6 +737,7 @@ int main(void)
 			if (get_char(drv_w[2], &sep)) { puts("bad-op"); continue; }
 			if (!(ptxt = get_text(drv_w[4], &plen))) { puts("bad-op"); continue; }
 			p.sep = sep; p.assign = 0;
+			if (drv_nw == 6) p.flags = MPT_PATHFLAG(SepBinary);   /* first use of the object: binary length mode */
 			for (tok = strtok_r(drv_w[3], ",", &save); tok; tok = strtok_r(0, ",", &save)) {
 				size_t el;
 				char *e = get_text(tok, &el);
